@@ -109,6 +109,7 @@ type ContractSet struct {
 	ModSets    map[string][]string
 	Guarded    map[string]string  // pkg::Struct.field -> name of the mutex field in the same struct
 	ChanInvs   map[string]*Clause // pkg::Struct.field -> invariant over the values sent on that channel (variable v)
+	MapInvs    map[string]*Clause // pkg::Type -> invariant over the values STORED in maps with that value type (variable v)
 }
 
 type Family struct {
@@ -129,7 +130,7 @@ func newContractSet() *ContractSet {
 	cs := &ContractSet{
 		Funcs: map[string]*Contract{}, Types: map[string]*Contract{}, Ifaces: map[string]*Contract{},
 		Ghosts: map[string]*GhostDecl{}, SpecSyms: map[string]specSig{}, Templates: map[string]*Contract{},
-		FieldFuncs: map[string]string{}, ModSets: map[string][]string{}, Guarded: map[string]string{}, ChanInvs: map[string]*Clause{},
+		FieldFuncs: map[string]string{}, ModSets: map[string][]string{}, Guarded: map[string]string{}, ChanInvs: map[string]*Clause{}, MapInvs: map[string]*Clause{},
 	}
 	// built-in ghost state maintained by the generator
 	cs.Ghosts["clock"] = &GhostDecl{Name: "clock", Sort: "Int"}
@@ -151,7 +152,7 @@ var clauseKeywords = map[string]bool{
 var blockKeywords = map[string]bool{
 	"func": true, "type": true, "iface": true, "ext": true, "ghost": true, "global": true,
 	"lemma": true, "spec": true, "rule": true, "package": true, "template": true, "funcs": true,
-	"ghostfield": true, "fieldfunc": true, "modset": true, "guarded": true, "chaninv": true,
+	"ghostfield": true, "fieldfunc": true, "modset": true, "guarded": true, "chaninv": true, "mapinv": true,
 }
 
 var labelRe = regexp.MustCompile(`^\[([A-Za-z0-9_.:-]+)\]\s*`)
@@ -234,6 +235,14 @@ func (cs *ContractSet) parseFile(path, pkg string, requirePrefix bool) error {
 					return fmt.Errorf("%s:%d: chaninv Struct.field EXPR", path, ln)
 				}
 				cs.ChanInvs[pkg+"::"+f[0]] = &Clause{Kind: "chaninv", Text: strings.TrimSpace(strings.TrimPrefix(rest, f[0])), File: path, Line: ln, Label: f[0]}
+			case "mapinv":
+				// mapinv Type EXPR(v): every value v stored in a map whose value type is Type satisfies EXPR
+				// (obliged at every map store in a function under contract, assumed of every entry found by a lookup)
+				f := strings.Fields(rest)
+				if len(f) < 2 {
+					return fmt.Errorf("%s:%d: mapinv Type EXPR", path, ln)
+				}
+				cs.MapInvs[pkg+"::"+f[0]] = &Clause{Kind: "mapinv", Text: strings.TrimSpace(strings.TrimPrefix(rest, f[0])), File: path, Line: ln, Label: f[0]}
 			case "guarded":
 				// guarded Struct.field by lockfield
 				f := strings.Fields(rest)
